@@ -10,6 +10,8 @@ import (
 	"slices"
 	"testing"
 
+	proto4 "go.sia.tech/core/rhp/v4"
+	"go.sia.tech/core/types"
 	rhp4 "go.sia.tech/coreutils/rhp/v4"
 	"verifharness/hx"
 )
@@ -452,18 +454,38 @@ func (d *driver) driveClientFree(maxN, maxLen int) {
 			for i, v := range idx {
 				raw[i] = uint64(v)
 			}
-			res, err := rhp4.RPCFreeSectors(context.Background(), d.e.Net, rk, d.e.CM.TipState(), d.e.Prices, rhp4.ContractRevision{ID: k.ID, Revision: st.Revision}, raw)
-			d.e.WaitDone()
-			d.res.Eval(fmt.Sprintf("clientfree|%d|%v", n, idx))
+			orig := slices.Clone(raw)
 			replay := map[string]any{"kind": "clientfree", "n": n, "idx": idx}
+			d.res.Eval(fmt.Sprintf("clientfree|%d|%v", n, idx))
+			cr := rhp4.ContractRevision{ID: k.ID, Revision: st.Revision}
+			// a first attempt that fails (built on a stale revision: the host refuses it and stays untouched),
+			// then the retry WITH THE SAME SLICE OBJECT, as a caller's retry loop does
+			stale := cr
+			stale.Revision.RevisionNumber += 3
+			if _, err := rhp4.RPCFreeSectors(context.Background(), d.e.Net, rk, d.e.CM.TipState(), d.e.Prices, stale, raw); err == nil {
+				d.res.Mismatch("client:free:stale-accepted", fmt.Sprintf("size %d indices %v: a request built on a stale revision was accepted", n, idx), replay)
+				continue
+			}
+			d.e.WaitDone()
+			if !slices.Equal(raw, orig) {
+				d.res.Mismatch("client:free:caller-slice", fmt.Sprintf("size %d: RPCFreeSectors changed the caller's index slice from %v to %v", n, orig, raw), replay)
+			}
+			if mid, _ := d.e.State(k.ID); fmt.Sprint(mid.Roots) != fmt.Sprint(st.Roots) || mid.Revision.RevisionNumber != st.Revision.RevisionNumber {
+				d.res.Mismatch("client:free:failed-attempt-changed-host", fmt.Sprintf("size %d indices %v: the refused attempt changed the host", n, idx), replay)
+			}
+			res, err := rhp4.RPCFreeSectors(context.Background(), d.e.Net, rk, d.e.CM.TipState(), d.e.Prices, cr, raw)
+			d.e.WaitDone()
 			if err != nil {
 				d.res.Mismatch("client:free:error", fmt.Sprintf("size %d indices %v: %v", n, idx, err), replay)
 				continue
 			}
+			if !slices.Equal(raw, orig) {
+				d.res.Mismatch("client:free:caller-slice", fmt.Sprintf("size %d: RPCFreeSectors changed the caller's index slice from %v to %v", n, orig, raw), replay)
+			}
 			after, _ := d.e.State(k.ID)
-			want := listModel(base, idx)
+			want := listModel(base, idx) // the list model of what the caller ORIGINALLY asked for
 			if got := ad.IDs(after.Roots); fmt.Sprint(got) != fmt.Sprint(want) {
-				d.res.Mismatch("client:free:listmodel", fmt.Sprintf("size %d indices %v: host roots %v, list model %v", n, idx, got, want), replay)
+				d.res.Mismatch("client:free:listmodel", fmt.Sprintf("size %d indices %v (retry after a refused attempt, same slice): host roots %v, list model %v", n, idx, got, want), replay)
 			}
 			if after.Revision.FileMerkleRoot != res.Revision.FileMerkleRoot || !SigsOK(after.Revision) {
 				d.res.Mismatch("client:free:revision", fmt.Sprintf("size %d indices %v: host revision differs from the one the client holds", n, idx), replay)
@@ -471,6 +493,59 @@ func (d *driver) driveClientFree(maxN, maxLen int) {
 			d.res.Count("clientfree_lists", 1)
 		}
 	}
+}
+
+// clientArgsUntouched: no client RPC may modify a slice its caller passed in (roots, deposits,
+// accounts, pools, indices): the caller may reuse it, e.g. for a retry.
+func (d *driver) clientArgsUntouched() {
+	rk := d.e.Key("renter")
+	k, err := d.e.Form(rk, Units(1000000000), Units(900000000))
+	if err != nil {
+		d.t.Fatal(err)
+	}
+	ad := NewAdapter(d.e, k)
+	for _, id := range []int{1, 2, 3, 4} {
+		ad.EnsureStored(id)
+	}
+	ctx := context.Background()
+	cs := d.e.CM.TipState()
+	cur := func() rhp4.ContractRevision {
+		st, _ := d.e.State(k.ID)
+		return rhp4.ContractRevision{ID: k.ID, Revision: st.Revision}
+	}
+	check := func(what string, same bool) {
+		d.res.Eval("clientargs|" + what)
+		d.res.Count("client_arg_checks", 1)
+		if !same {
+			d.res.Mismatch("client:"+what+":caller-slice", "the client RPC modified the slice its caller passed ("+what+")", map[string]any{"kind": "clientargs", "what": what})
+		}
+	}
+	roots := []types.Hash256{ad.Root(3), ad.Root(1), ad.Root(3), ad.Root(2)}
+	r0 := slices.Clone(roots)
+	_, err = rhp4.RPCAppendSectors(ctx, d.e.Net, rk, cs, d.e.Prices, cur(), roots)
+	d.e.WaitDone()
+	check("append-roots", err == nil && slices.Equal(roots, r0))
+	a3, a1 := ad.Acc("a3"), ad.Acc("a1")
+	deps := []proto4.AccountDeposit{{Account: a3, Amount: Units(7)}, {Account: a1, Amount: Units(5)}, {Account: a3, Amount: Units(2)}}
+	d0 := slices.Clone(deps)
+	_, err = rhp4.RPCFundAccounts(ctx, d.e.Net, cs, rk, cur(), deps)
+	d.e.WaitDone()
+	check("fund-deposits", err == nil && slices.Equal(deps, d0))
+	accs := []proto4.Account{a3, a1, a3}
+	c0 := slices.Clone(accs)
+	_, err = rhp4.RPCReplenishAccounts(ctx, d.e.Net, rhp4.RPCReplenishAccountsParams{Accounts: accs, Target: Units(50), Contract: cur()}, cs, rk)
+	d.e.WaitDone()
+	check("replenish-accounts", err == nil && slices.Equal(accs, c0))
+	pools := []proto4.Account{ad.Acc("p2"), ad.Acc("p1"), ad.Acc("p2")}
+	p0 := slices.Clone(pools)
+	_, err = rhp4.RPCReplenishPools(ctx, d.e.Net, rhp4.RPCReplenishPoolsParams{Pools: pools, Target: Units(50), Contract: cur()}, cs, rk)
+	d.e.WaitDone()
+	check("replenish-pools", err == nil && slices.Equal(pools, p0))
+	idx := []uint64{3, 1, 3}
+	i0 := slices.Clone(idx)
+	_, err = rhp4.RPCFreeSectors(ctx, d.e.Net, rk, cs, d.e.Prices, cur(), idx)
+	d.e.WaitDone()
+	check("free-indices", err == nil && slices.Equal(idx, i0))
 }
 
 // TestDriver runs the real host on random / adversarial inputs and records one NDJSON event per
@@ -520,6 +595,7 @@ func TestDriver(t *testing.T) {
 			d.driveOverflow(hx.EnvInt("VERIF_MAXLEN", 4))
 		case "clientfree":
 			d.driveClientFree(hx.EnvInt("VERIF_MAXN", 4), hx.EnvInt("VERIF_MAXLEN", 4))
+			d.clientArgsUntouched()
 		default:
 			t.Fatalf("unknown family %q", family)
 		}
